@@ -7,14 +7,17 @@
 //! case line (the first eleven fields in this order, numbers decimal; the others optional):
 //!   `index ts=<u32> os=<platform id> cpu=<arch> th=<T> nm=<N> bp=<B> ex=<E> mi=<M> st=<S> mo=<L> um=<L>`
 //!         `[rg=<R>] [en=<le|be>] [ml=<ML>] [si=<SI>] [lsb=<S'>] [mac=<MC>] [ba=<BA>] [hd=<n>] [ps=<mask>]`
+//!         `[sy=<SY>] [sw=<SW>]`
 //!   T = `-` (no thread list stream) | `.` (empty list) | `id:ctx[:stk],..`
-//!       ctx = `r<ip>` | `r<ip>/<sp>/<fp>` | `u<mode 0..4>`
+//!       ctx = `r<ip>` | `r<ip>/<sp>/<fp>[/<reg>=<value>]*` | `u<mode 0..4>`   (reg: a canonical register
+//!             name of the CPU's context other than ip / sp / frame pointer; a register not listed is 0)
 //!       stk = `<start>/n` (stack descriptor with rva 0) | `<start>/o` (location outside the file) |
 //!             `<start>/m<k>` (the descriptor cites the bytes of pool region k)
 //!   N = `-` | `.` | `id:name,..`   name: `!` = unreadable string | ASCII token | `x<hex of UTF-16 code units>`
 //!   B = `-` | `validity:dump_thread_id:requesting_thread_id`
 //!   E = `-` | `x` (stream too short) | `tid:code:flags:addr:nparams:p0:p1:p2:ctx`
-//!   M = `-` | `x` (stream too short) | `flags1:pid:create_time:version(1..5)`
+//!   M = `-` | `x` (stream too short) | `flags1:pid:create_time:version(1..5)[:size_of_info]` (5th item: the
+//!       stream's own size field when it disagrees with the struct size; untrusted, must be ignored)
 //!   S = `-` | `.` (empty stream) | `Key~value,..`
 //!   L = `.` | `base:size:name,..`
 //!   R = pool of memory regions `base/size[/off.hexbytes]*,..` (zero-filled, then patched)
@@ -25,6 +28,10 @@
 //!   BA = name (`!`: the boot-args string cannot be read)    hd = number of handle descriptors (>= 1)
 //!   ps = bit mask of streams present but not consulted: 1 thread-info list, 2 Crashpad info,
 //!        4 assertion info, 8 memory-info list
+//!   SY = `<module name>~<records>,..` what the symbol supplier has (records as in `walk` cases:
+//!        FUNC / PUBLIC / STACK CFI INIT / STACK CFI);  SW = `<module name>~<rec>;<rec>..,..` STACK WIN
+//!        records (as in `chain` cases); the dump is processed with a `StringSymbolSupplier` holding the
+//!        breakpad text of these records under the module's name
 //!
 //! unreadable-context modes: 0 location (0,0) · 1 rva outside the file · 2 truncated by one byte ·
 //! 3 context_flags without the CPU bits · 4 size 0 at a valid rva
@@ -46,14 +53,63 @@ pub struct Index;
 
 // ------------------------------------------------------------------------------------ case
 
-#[derive(Clone, Copy, Debug, PartialEq)]
+#[derive(Clone, Debug, PartialEq)]
 enum Ctx {
-    R { ip: u64, sp: u64, fp: u64 },
+    /// a readable context: ip / sp / frame pointer and further registers by canonical name
+    R { ip: u64, sp: u64, fp: u64, rest: Vec<(String, u64)> },
     U(u8),
 }
 
 fn rctx(ip: u64) -> Ctx {
-    Ctx::R { ip, sp: 0, fp: 0 }
+    Ctx::R { ip, sp: 0, fp: 0, rest: vec![] }
+}
+
+fn rctx3(ip: u64, sp: u64, fp: u64) -> Ctx {
+    Ctx::R { ip, sp, fp, rest: vec![] }
+}
+
+/// one `STACK WIN` record (module-relative address), as in `chain` cases
+#[derive(Clone, Debug, PartialEq)]
+struct WinRec {
+    ty: char,
+    addr: u64,
+    size: u64,
+    par: u32,
+    sav: u32,
+    loc: u32,
+    /// program string (type 4) or `0` / `1` = allocates_base_pointer (type 0)
+    rest: String,
+}
+
+impl WinRec {
+    fn hp(&self) -> char {
+        if self.ty == '4' {
+            '1'
+        } else {
+            '0'
+        }
+    }
+    fn text(&self) -> String {
+        format!("STACK WIN {} {:x} {:x} 0 0 {:x} {:x} {:x} 0 {} {}\n", self.ty, self.addr, self.size, self.par, self.sav, self.loc, self.hp(), self.rest)
+    }
+    fn field(&self) -> String {
+        format!("{}|{}|{}|{}|{}|{}|{}|{}", self.ty, self.addr, self.size, self.par, self.sav, self.loc, self.hp(), self.rest.replace(' ', "_"))
+    }
+    fn parse(r: &str) -> Option<WinRec> {
+        let p: Vec<&str> = r.split('|').collect();
+        if p.len() != 8 || p[7].is_empty() {
+            return None;
+        }
+        let ty = p[0].chars().next()?;
+        if p[0].len() != 1 || !(ty == '0' || ty == '4') {
+            return None;
+        }
+        let rec = WinRec { ty, addr: p[1].parse().ok()?, size: p[2].parse::<u32>().ok()? as u64, par: p[3].parse().ok()?, sav: p[4].parse().ok()?, loc: p[5].parse().ok()?, rest: p[7].replace('_', " ") };
+        if p[6].len() != 1 || p[6].chars().next()? != rec.hp() {
+            return None;
+        }
+        Some(rec)
+    }
 }
 
 #[derive(Clone, Debug, PartialEq)]
@@ -80,7 +136,9 @@ enum ExcSpec {
 enum MiscSpec {
     None,
     Short,
-    Some { flags: u32, pid: u32, ctime: u32, ver: u8 },
+    /// `soi`: what the stream's own `size_of_info` field says when that is NOT the struct's size
+    /// (the field is untrusted; `MinidumpMiscInfo::read` picks the revision by the stream length)
+    Some { flags: u32, pid: u32, ctime: u32, ver: u8, soi: Option<u32> },
 }
 
 /// a name as written into the dump: UTF-16 code units, or an unreadable string
@@ -257,12 +315,22 @@ struct Case {
     ba: Option<Name>,
     hd: Option<u32>,
     ps: u32,
+    /// the symbol supplier: per module name its FUNC / PUBLIC / STACK CFI records …
+    sy: Vec<(String, Vec<walk::Rec>)>,
+    /// … and its STACK WIN records
+    sw: Vec<(String, Vec<WinRec>)>,
 }
 
 fn fmt_ctx(c: &Ctx) -> String {
     match c {
-        Ctx::R { ip, sp: 0, fp: 0 } => format!("r{ip}"),
-        Ctx::R { ip, sp, fp } => format!("r{ip}/{sp}/{fp}"),
+        Ctx::R { ip, sp: 0, fp: 0, rest } if rest.is_empty() => format!("r{ip}"),
+        Ctx::R { ip, sp, fp, rest } => {
+            let mut s = format!("r{ip}/{sp}/{fp}");
+            for (n, v) in rest {
+                let _ = write!(s, "/{n}={v}");
+            }
+            s
+        }
         Ctx::U(m) => format!("u{m}"),
     }
 }
@@ -308,7 +376,8 @@ impl Case {
         let mi = match &self.mi {
             MiscSpec::None => "-".to_string(),
             MiscSpec::Short => "x".to_string(),
-            MiscSpec::Some { flags, pid, ctime, ver } => format!("{flags}:{pid}:{ctime}:{ver}"),
+            MiscSpec::Some { flags, pid, ctime, ver, soi: None } => format!("{flags}:{pid}:{ctime}:{ver}"),
+            MiscSpec::Some { flags, pid, ctime, ver, soi: Some(z) } => format!("{flags}:{pid}:{ctime}:{ver}:{z}"),
         };
         let st = match &self.st {
             None => "-".to_string(),
@@ -402,8 +471,40 @@ impl Case {
         if self.ps != 0 {
             let _ = write!(s, " ps={}", self.ps);
         }
+        if !self.sy.is_empty() {
+            let _ = write!(s, " sy={}", self.sy.iter().map(|(n, r)| format!("{n}~{}", walk::render_recs(r))).collect::<Vec<_>>().join(","));
+        }
+        if !self.sw.is_empty() {
+            let _ = write!(
+                s,
+                " sw={}",
+                self.sw.iter().map(|(n, r)| format!("{n}~{}", r.iter().map(|x| x.field()).collect::<Vec<_>>().join(";"))).collect::<Vec<_>>().join(",")
+            );
+        }
         s
     }
+}
+
+/// records of one symbol file, in the `walk` engine's own syntax (parsed by that engine's parser, so
+/// that a change of its encoding is followed here)
+fn parse_recs(name: &str, recs: &str) -> Option<Vec<walk::Rec>> {
+    let c = walk::Case::parse(&format!("walk x86 linux ctx: valid:all stack:none mods:- sym:{name}:{recs}"), 0)?;
+    Some(c.syms.into_iter().next()?.1)
+}
+
+/// the breakpad text the supplier holds per module name
+fn symbol_map(c: &Case) -> std::collections::HashMap<String, String> {
+    let mut m = std::collections::HashMap::new();
+    for (n, recs) in &c.sy {
+        m.insert(n.clone(), walk::sym_text(n, recs));
+    }
+    for (n, wins) in &c.sw {
+        let t = m.entry(n.clone()).or_insert_with(|| walk::sym_text(n, &[]));
+        for w in wins {
+            t.push_str(&w.text());
+        }
+    }
+    m
 }
 
 fn kv<'a>(tok: &'a str, key: &str) -> Option<&'a str> {
@@ -418,13 +519,31 @@ fn parse_ctx(cpu: u16, s: &str) -> Option<Ctx> {
     if let Some(r) = s.strip_prefix('r') {
         let lim = if ctx32(cpu) { u32::MAX as u64 } else { u64::MAX };
         let p: Vec<&str> = r.split('/').collect();
-        let v: Vec<u64> = p.iter().map(|x| x.parse().ok()).collect::<Option<_>>()?;
+        let (nums, items) = p.split_at(p.len().min(3));
+        let v: Vec<u64> = nums.iter().map(|x| x.parse().ok()).collect::<Option<_>>()?;
         if v.iter().any(|x| *x > lim) {
             return None;
         }
         match v.as_slice() {
-            [ip] => Some(rctx(*ip)),
-            [ip, sp, fp] => Some(Ctx::R { ip: *ip, sp: *sp, fp: *fp }),
+            [ip] if items.is_empty() => Some(rctx(*ip)),
+            [ip, sp, fp] => {
+                let mut rest: Vec<(String, u64)> = vec![];
+                if !items.is_empty() {
+                    let arch = walk_arch(cpu)?;
+                    for it in items {
+                        let (n, val) = it.split_once('=')?;
+                        let val: u64 = val.parse().ok()?;
+                        if !walk::registers(arch).contains(&n) || n == walk::ip_name(arch) || n == walk::sp_name(arch) || n == walk::fp_name(arch) {
+                            return None;
+                        }
+                        if val > lim || rest.iter().any(|(m, _)| m == n) {
+                            return None;
+                        }
+                        rest.push((n.to_string(), val));
+                    }
+                }
+                Some(Ctx::R { ip: *ip, sp: *sp, fp: *fp, rest })
+            }
             _ => None,
         }
     } else if let Some(u) = s.strip_prefix('u') {
@@ -562,14 +681,15 @@ fn parse_case(line: &str) -> Option<Case> {
         "x" => MiscSpec::Short,
         s => {
             let p: Vec<&str> = s.split(':').collect();
-            if p.len() != 4 {
+            if p.len() != 4 && p.len() != 5 {
                 return None;
             }
             let ver: u8 = p[3].parse().ok()?;
             if !(1..=5).contains(&ver) {
                 return None;
             }
-            MiscSpec::Some { flags: p[0].parse().ok()?, pid: p[1].parse().ok()?, ctime: p[2].parse().ok()?, ver }
+            let soi = if p.len() == 5 { Some(p[4].parse().ok()?) } else { None };
+            MiscSpec::Some { flags: p[0].parse().ok()?, pid: p[1].parse().ok()?, ctime: p[2].parse().ok()?, ver, soi }
         }
     };
     let st = match kv(f[9], "st")? {
@@ -585,7 +705,7 @@ fn parse_case(line: &str) -> Option<Case> {
     };
     let mo = parse_list(kv(f[10], "mo")?, parse_mod)?;
     let um = parse_list(kv(f[11], "um")?, parse_mod)?;
-    let mut c = Case { ts, os, cpu, th, nm, bp, ex, mi, st, mo, um, rg, be: false, ml: vec![], si: None, lsb: None, mac: None, ba: None, hd: None, ps: 0 };
+    let mut c = Case { ts, os, cpu, th, nm, bp, ex, mi, st, mo, um, rg, be: false, ml: vec![], si: None, lsb: None, mac: None, ba: None, hd: None, ps: 0, sy: vec![], sw: vec![] };
     let mut seen: BTreeSet<&str> = BTreeSet::new();
     for t in rest {
         let (k, v) = t.split_once('=')?;
@@ -685,6 +805,24 @@ fn parse_case(line: &str) -> Option<Case> {
                 c.hd = Some(n)
             }
             "ps" => c.ps = v.parse().ok()?,
+            "sy" => {
+                for m in v.split(',') {
+                    let (n, recs) = m.split_once('~')?;
+                    if !name_ok(n) || c.sy.iter().any(|(x, _)| x == n) {
+                        return None;
+                    }
+                    c.sy.push((n.to_string(), parse_recs(n, recs)?));
+                }
+            }
+            "sw" => {
+                for m in v.split(',') {
+                    let (n, recs) = m.split_once('~')?;
+                    if !name_ok(n) || c.sw.iter().any(|(x, _)| x == n) {
+                        return None;
+                    }
+                    c.sw.push((n.to_string(), recs.split(';').filter(|x| !x.is_empty()).map(WinRec::parse).collect::<Option<_>>()?));
+                }
+            }
             _ => return None,
         }
     }
@@ -703,7 +841,7 @@ fn endian(c: &Case) -> Endian {
 
 /// a well-formed context of the given raw architecture with the given ip / sp / frame pointer;
 /// `None`: `MinidumpContext::read` has no format for this architecture.
-fn context_bytes(arch: u16, be: bool, ip: u64, sp: u64, fp: u64, bad_flags: bool) -> Option<Vec<u8>> {
+fn context_bytes(arch: u16, be: bool, ip: u64, sp: u64, fp: u64, rest: &[(String, u64)], bad_flags: bool) -> Option<Vec<u8>> {
     use md::ContextFlagsCpu as F;
     use md::ProcessorArchitecture::*;
     use num_traits_shim::from_u16;
@@ -714,6 +852,9 @@ fn context_bytes(arch: u16, be: bool, ip: u64, sp: u64, fp: u64, bad_flags: bool
             let mut buf = vec![0u8; size];
             let mut $c: $t = buf.pread_with(0, en).ok()?;
             $body
+            for (n, v) in rest {
+                $c.set_register(n, *v as _)?;
+            }
             buf.pwrite_with($c, 0, en).ok()?;
             Some(buf)
         }};
@@ -811,10 +952,13 @@ enum Loc {
 fn ctx_location(arch: u16, be: bool, c: &Ctx) -> Loc {
     let en = if be { Endian::Big } else { Endian::Little };
     // for architectures without a context format an x86-shaped blob is written: it must be ignored
-    let fallback = |ip: u64, sp: u64, fp: u64, bad: bool| context_bytes(0, be, ip, sp, fp, bad).unwrap();
-    let bytes = |ip: u64, sp: u64, fp: u64, bad: bool| context_bytes(arch, be, ip, sp, fp, bad).unwrap_or_else(|| fallback(ip, sp, fp, bad));
+    let fallback = |ip: u64, sp: u64, fp: u64, bad: bool| context_bytes(0, be, ip, sp, fp, &[], bad).unwrap();
+    let bytes = |ip: u64, sp: u64, fp: u64, bad: bool| context_bytes(arch, be, ip, sp, fp, &[], bad).unwrap_or_else(|| fallback(ip, sp, fp, bad));
     match c {
-        Ctx::R { ip, sp, fp } => Loc::Section { sec: Section::with_endian(en).append_bytes(&bytes(*ip, *sp, *fp, false)), cite_size: None },
+        Ctx::R { ip, sp, fp, rest } => {
+            let b = context_bytes(arch, be, *ip, *sp, *fp, rest, false).unwrap_or_else(|| fallback(*ip, *sp, *fp, false));
+            Loc::Section { sec: Section::with_endian(en).append_bytes(&b), cite_size: None }
+        }
         Ctx::U(0) => Loc::Zero,
         Ctx::U(1) => Loc::Outside(bytes(0, 0, 0, false).len() as u32),
         Ctx::U(2) => {
@@ -1049,7 +1193,7 @@ fn build_dump(c: &Case) -> Vec<u8> {
                 section: Section::with_endian(en).D32(8).D32(3),
             });
         }
-        MiscSpec::Some { flags, pid, ctime, ver } => {
+        MiscSpec::Some { flags, pid, ctime, ver, soi } => {
             let size = match ver {
                 1 => md::MINIDUMP_MISC_INFO::size_with(&scroll::LE),
                 2 => md::MINIDUMP_MISC_INFO_2::size_with(&scroll::LE),
@@ -1058,7 +1202,7 @@ fn build_dump(c: &Case) -> Vec<u8> {
                 _ => md::MINIDUMP_MISC_INFO_5::size_with(&scroll::LE),
             };
             let s = Section::with_endian(en)
-                .D32(size as u32)
+                .D32(soi.unwrap_or(size as u32))
                 .D32(*flags)
                 .D32(*pid)
                 .D32(*ctime)
@@ -1266,7 +1410,7 @@ fn run_impl(c: &Case) -> Seen {
         Ok(d) => d,
         Err(e) => return Seen { out: format!("err:read:{e:?}"), state: None },
     };
-    let provider = minidump_unwind::Symbolizer::new(minidump_unwind::string_symbol_supplier(Default::default()));
+    let provider = minidump_unwind::Symbolizer::new(minidump_unwind::string_symbol_supplier(symbol_map(c)));
     let res = RT.with(|rt| rt.block_on(minidump_processor::process_minidump(&dump, &provider)));
     let state = match res {
         Ok(s) => s,
@@ -1377,7 +1521,7 @@ fn run_impl(c: &Case) -> Seen {
 // The property, re-stated independently of the Lean model, on the implementation's ProcessState.
 
 fn arch_has_context(arch: u16) -> bool {
-    context_bytes(arch, false, 0, 0, 0, false).is_some()
+    context_bytes(arch, false, 0, 0, 0, &[], false).is_some()
 }
 
 /// name of the architecture for the `walk` engine's helpers; `None`: no unwinder for its contexts
@@ -1477,9 +1621,9 @@ fn allowed_memories(c: &Case, t: &Thread, sp: Option<u64>) -> Vec<Option<(u64, V
 
 /// the real `walk_stack` from the given context on the given memory (what the state's call stack
 /// must be, for one of the allowed memories)
-fn reference_walk(c: &Case, ctx: &MinidumpContext, mem: &Option<(u64, Vec<u8>)>, modules: &MinidumpModuleList, sysinfo: &minidump_unwind::SystemInfo) -> Vec<String> {
+fn reference_walk(c: &Case, ctx: &MinidumpContext, mem: &Option<(u64, Vec<u8>)>, modules: &MinidumpModuleList, sysinfo: &minidump_unwind::SystemInfo, with_symbols: bool) -> Vec<String> {
     let mods: Vec<(u64, u64, String)> = modules.iter().map(|m| (m.base_address(), m.size(), m.name.clone())).collect();
-    let symbolizer = minidump_unwind::Symbolizer::new(minidump_unwind::string_symbol_supplier(Default::default()));
+    let symbolizer = minidump_unwind::Symbolizer::new(minidump_unwind::string_symbol_supplier(if with_symbols { symbol_map(c) } else { Default::default() }));
     let mut stack = minidump_unwind::CallStack::with_context(ctx.clone());
     let m = mem.as_ref().map(|(base, bytes)| MinidumpMemory {
         desc: Default::default(),
@@ -1564,7 +1708,7 @@ fn oracle(c: &Case, seen: &Seen) -> Vec<(String, String)> {
     };
     // 3. the walk starts from the exception's context when one can be read
     let readable = |x: &Ctx| match x {
-        Ctx::R { ip, sp, fp } if arch_has_context(c.cpu) => Some((*ip, *sp, *fp)),
+        Ctx::R { ip, sp, fp, .. } if arch_has_context(c.cpu) => Some((*ip, *sp, *fp)),
         _ => None,
     };
     let sysinfo = minidump_unwind::SystemInfo {
@@ -1618,14 +1762,22 @@ fn oracle(c: &Case, seen: &Seen) -> Vec<(String, String)> {
             let mut matched: Option<Option<(u64, Vec<u8>)>> = None;
             let mut refs = vec![];
             for m in &allowed {
-                let r = reference_walk(c, &f0.context, m, &st.modules, &sysinfo);
+                let r = reference_walk(c, &f0.context, m, &st.modules, &sysinfo, true);
                 if r == got {
                     matched = Some(m.clone());
                     break;
                 }
                 refs.push(r.join("^"));
             }
+            // the stack is the walk on an allowed memory as if the supplier had no symbol file at all
+            let unsymbolized = matched.is_none()
+                && !(c.sy.is_empty() && c.sw.is_empty())
+                && allowed.iter().any(|m| reference_walk(c, &f0.context, m, &st.modules, &sysinfo, false) == got);
             match matched {
+                None if unsymbolized => fail(
+                    "symbols-not-consulted",
+                    format!("stack {i}: frames {} are the walk WITHOUT the symbol files the supplier has (with them: {})", got.join("^"), refs.join(" || ")),
+                ),
                 None => fail(
                     "stack-memory-selection",
                     format!(
@@ -1638,22 +1790,21 @@ fn oracle(c: &Case, seen: &Seen) -> Vec<(String, String)> {
                 Some(m) => {
                     // C05's well-formedness and C03's bound hold for every stack of the process state
                     if let Some(arch) = walk_arch(c.cpu) {
-                        if !c.be {
-                            let wc = walk::Case {
-                                engine: "walk".into(),
-                                arch: arch.into(),
-                                os: "linux".into(),
-                                regs: vec![(walk::ip_name(arch).to_string(), f0.context.get_instruction_pointer())],
-                                valid: None,
-                                stack: m.clone(),
-                                mods: vec![],
-                                syms: vec![],
-                                symraw: vec![],
-                                extra: vec![],
-                            };
-                            for (cl, d) in walk::wf_oracle(&wc, s) {
-                                fail(&format!("stack-not-well-formed:{cl}"), format!("stack {i}: {d}"));
-                            }
+                        let wc = walk::Case {
+                            engine: "walk".into(),
+                            arch: arch.into(),
+                            os: "linux".into(),
+                            regs: vec![(walk::ip_name(arch).to_string(), f0.context.get_instruction_pointer())],
+                            valid: None,
+                            stack: m.clone(),
+                            mods: vec![],
+                            syms: c.sy.clone(),
+                            symraw: vec![],
+                            extra: vec![],
+                            be: c.be,
+                        };
+                        for (cl, d) in walk::wf_oracle(&wc, s) {
+                            fail(&format!("stack-not-well-formed:{cl}"), format!("stack {i}: {d}"));
                         }
                     }
                     let bytes = m.as_ref().map(|x| x.1.len()).unwrap_or(0);
@@ -1873,6 +2024,49 @@ fn oracle(c: &Case, seen: &Seen) -> Vec<(String, String)> {
     }
     if !st.cert_info.is_empty() {
         fail("cert-info", format!("{:?} without an evil json file", st.cert_info));
+    }
+    // 9. the byte order of the dump is a matter of encoding: the same dump written little-endian is
+    //    indexed to the same state. Stated only where it is certain that the two walks read the same
+    //    words: no symbol records (their rules may address memory anywhere), every region based on a
+    //    pointer-size boundary, and every stack / frame pointer that any frame of either state holds
+    //    valid is a multiple of the pointer size — the frame-pointer and scan unwinders read at
+    //    those registers plus multiples of the pointer size only.
+    if let Some(arch) = walk_arch(c.cpu) {
+        let w = walk::ptr_of(arch);
+        if c.be && c.sy.is_empty() && c.sw.is_empty() && c.rg.iter().all(|r| r.base % w == 0) {
+            let mut twin = c.clone();
+            twin.be = false;
+            for r in twin.rg.iter_mut() {
+                let mut b = r.bytes();
+                for ch in b.chunks_mut(w as usize) {
+                    ch.reverse();
+                }
+                r.patches = vec![(0, b)];
+            }
+            let seen2 = run_impl(&twin);
+            if seen2.out != seen.out {
+                let aligned = |s: &minidump_processor::ProcessState| {
+                    s.threads.iter().all(|t| {
+                        t.frames.iter().all(|f| {
+                            ["esp", "ebp", "rsp", "rbp", "sp", "fp", "r11", "r13", "x29"].iter().all(|n| {
+                                let known = walk::registers(arch).contains(n) || walk::alias_names(arch).contains(n);
+                                let valid = match &f.context.valid {
+                                    MinidumpContextValidity::All => true,
+                                    MinidumpContextValidity::Some(set) => set.contains(n),
+                                };
+                                !known || !valid || f.context.get_register_always(n) % w == 0
+                            })
+                        })
+                    })
+                };
+                if seen2.state.as_ref().is_some_and(|s2| aligned(s2)) && aligned(st) {
+                    fail(
+                        "byte-order-dependent",
+                        format!("the big-endian dump is indexed to {} but the same dump written little-endian to {}", seen.out, seen2.out),
+                    );
+                }
+            }
+        }
     }
     bad
 }
@@ -2170,6 +2364,8 @@ fn empty_case(os: u32, cpu: u16) -> Case {
         ba: None,
         hd: None,
         ps: 0,
+        sy: vec![],
+        sw: vec![],
     }
 }
 
@@ -2322,7 +2518,7 @@ fn gen_random(rng: &mut Rng, codes: &BTreeMap<String, Vec<u64>>, big: bool) -> C
             if rng.chance(1, 5) {
                 // registers without any memory to look at
                 let m = if is32ctx { 0xffff_ffffu64 } else { u64::MAX };
-                Ctx::R { ip, sp: pick_u64(rng) & m, fp: pick_u64(rng) & m }
+                rctx3(ip, pick_u64(rng) & m, pick_u64(rng) & m)
             } else {
                 rctx(ip)
             }
@@ -2401,6 +2597,7 @@ fn gen_random(rng: &mut Rng, codes: &BTreeMap<String, Vec<u64>>, big: bool) -> C
             pid: if rng.chance(1, 4) { 0 } else { rng.next() as u32 },
             ctime: if rng.chance(1, 4) { 0 } else { rng.next() as u32 },
             ver: rng.range(1, 5) as u8,
+            soi: if rng.chance(1, 6) { Some(*rng.pick(&[0u32, 8, 23, 24, 25, 0x340, 0xffff_ffff])) } else { None },
         },
     };
     let st = match rng.below(6) {
@@ -2479,8 +2676,29 @@ fn gen_random(rng: &mut Rng, codes: &BTreeMap<String, Vec<u64>>, big: bool) -> C
     c
 }
 
-fn word(v: u64, w: u64) -> Vec<u8> {
-    v.to_le_bytes()[..w as usize].to_vec()
+/// the `w` low bytes of `v` as a dump of the given byte order stores them
+fn word(v: u64, w: u64, be: bool) -> Vec<u8> {
+    let mut b = v.to_le_bytes()[..w as usize].to_vec();
+    if be {
+        b.reverse();
+    }
+    b
+}
+
+/// further registers of a context: some callee-saved ones and some scratch ones, with odd values
+fn gen_rest(rng: &mut Rng, cpu: u16) -> Vec<(String, u64)> {
+    let Some(arch) = walk_arch(cpu) else { return vec![] };
+    let lim = if ctx32(cpu) { 0xffff_ffffu64 } else { u64::MAX };
+    let mut rest = vec![];
+    for r in walk::registers(arch) {
+        if *r == walk::ip_name(arch) || *r == walk::sp_name(arch) || *r == walk::fp_name(arch) {
+            continue;
+        }
+        if rng.chance(1, 3) {
+            rest.push((r.to_string(), pick_u64(rng) & lim));
+        }
+    }
+    rest
 }
 
 /// Threads WITH stack memory: frame-pointer chains, planted return addresses and junk in pool
@@ -2488,7 +2706,9 @@ fn word(v: u64, w: u64) -> Vec<u8> {
 /// kinds with overlapping / empty / unreadable entries; contexts whose stack pointer is inside,
 /// at the end of, or outside the regions.
 fn gen_stacks(rng: &mut Rng, cpu: u16, coherent: bool) -> Case {
-    let arch = walk_arch(cpu);
+    // either byte order for every CPU: the reader swaps by the header signature, the walkers read the
+    // stack words through `get_memory_at_address`, which uses the dump's byte order
+    let be = rng.chance(1, 3);
     let w: u64 = match cpu {
         0 | 10 | 5 | 1 | 3 => 4,
         _ => 8,
@@ -2551,7 +2771,7 @@ fn gen_stacks(rng: &mut Rng, cpu: u16, coherent: bool) -> Case {
         for _ in 0..rng.below(4) {
             let s = rng.below(slots.max(1));
             if (s + 1) * w <= size {
-                patches.push((s * w, word(ret_addr(rng), w)));
+                patches.push((s * w, word(ret_addr(rng), w, be)));
             }
         }
         // a frame-pointer chain: [bp] = caller's bp, [bp + w] = return address
@@ -2566,11 +2786,11 @@ fn gen_stacks(rng: &mut Rng, cpu: u16, coherent: bool) -> Case {
                 }
                 let bp = base.wrapping_add(slot * w);
                 if let Some(p) = prev {
-                    patches.push((p, word(bp & lim, w)));
+                    patches.push((p, word(bp & lim, w, be)));
                 } else {
                     first_bp = bp;
                 }
-                patches.push((slot * w + w, word(ret_addr(rng), w)));
+                patches.push((slot * w + w, word(ret_addr(rng), w, be)));
                 prev = Some(slot * w);
                 slot += 2 + rng.below(4);
             }
@@ -2581,7 +2801,7 @@ fn gen_stacks(rng: &mut Rng, cpu: u16, coherent: bool) -> Case {
                     1 => base.wrapping_add(size),
                     _ => 0,
                 };
-                patches.push((p, word(last & lim, w)));
+                patches.push((p, word(last & lim, w, be)));
             }
         }
         (Region { base, size, patches }, first_bp)
@@ -2673,7 +2893,7 @@ fn gen_stacks(rng: &mut Rng, cpu: u16, coherent: bool) -> Case {
             Ctx::U(rng.below(5) as u8)
         } else {
             let (sp, fp) = sp_pick(rng);
-            Ctx::R { ip: ip(rng), sp, fp }
+            Ctx::R { ip: ip(rng), sp, fp, rest: if rng.chance(1, 6) { gen_rest(rng, cpu) } else { vec![] } }
         };
         let start = match rng.below(if coherent { 24 } else { 8 }) {
             0 => base_b,
@@ -2694,7 +2914,7 @@ fn gen_stacks(rng: &mut Rng, cpu: u16, coherent: bool) -> Case {
     c.th = Some(th);
     if rng.chance(3, 5) {
         let (sp, fp) = sp_pick(rng);
-        let ctx = if rng.chance(1, 6) { Ctx::U(rng.below(5) as u8) } else { Ctx::R { ip: ip(rng), sp, fp } };
+        let ctx = if rng.chance(1, 6) { Ctx::U(rng.below(5) as u8) } else { rctx3(ip(rng), sp, fp) };
         let mut e = exc0(11, 1);
         e.tid = if rng.chance(1, 8) { 9 } else { *rng.pick(&ids) };
         e.ctx = ctx;
@@ -2706,8 +2926,7 @@ fn gen_stacks(rng: &mut Rng, cpu: u16, coherent: bool) -> Case {
     if rng.chance(1, 4) {
         c.nm = Some(vec![(1, if rng.chance(1, 2) { odd_name(rng) } else { Name::ascii("main") }), (2, Name::ascii("worker"))]);
     }
-    // a big-endian dump only where no walk reads memory through the (little-endian) walker model
-    c.be = arch.is_none() && rng.chance(1, 2);
+    c.be = be;
     if rng.chance(1, 6) {
         add_extras(rng, &mut c);
     }
@@ -2718,21 +2937,22 @@ fn gen_stacks(rng: &mut Rng, cpu: u16, coherent: bool) -> Case {
 /// (no 64-bit word there) and the memory list — absent, or holding region B only — does not serve
 /// that address: the thread keeps its own memory, in which the frame-pointer chain (and, on 32-bit
 /// CPUs, the last word) is still readable
-fn tail_case(cpu: u16, k: u64, with_list: bool, fp_kind: u8) -> Case {
+fn tail_case(cpu: u16, k: u64, with_list: bool, fp_kind: u8, be: bool) -> Case {
     let w: u64 = if matches!(cpu, 0 | 5 | 1) { 4 } else { 8 };
     let (a, b, size) = (0x10000u64, 0x20000u64, 0x100u64);
     let os = if cpu == 5 { 0x8102 } else { LINUX };
     let mut c = empty_case(os, cpu);
+    c.be = be;
     c.mo.push(Mod { base: 0x40_0000, size: 0x1000, name: Name::ascii("mod") });
     let mut patches = vec![
-        (0x20, word(a + 0x40, w)),
-        (0x20 + w, word(0x40_0310, w)),
-        (0x40, word(0, w)),
-        (0x40 + w, word(0x40_0420, w)),
+        (0x20, word(a + 0x40, w, be)),
+        (0x20 + w, word(0x40_0310, w, be)),
+        (0x40, word(0, w, be)),
+        (0x40 + w, word(0x40_0420, w, be)),
         // a frame record in the last two words (caller's frame pointer 0, return address): its caller
         // frame has sp = end of the region, above every stack pointer inside it
-        (size - 2 * w, word(0, w)),
-        (size - w, word(0x40_0530, w)),
+        (size - 2 * w, word(0, w, be)),
+        (size - w, word(0x40_0530, w, be)),
     ];
     patches.sort();
     c.rg.push(Region { base: a, size, patches });
@@ -2745,31 +2965,187 @@ fn tail_case(cpu: u16, k: u64, with_list: bool, fp_kind: u8) -> Case {
         1 => a + size - 2 * w,
         _ => 0,
     };
-    c.th = Some(vec![Thread { id: 1, ctx: Ctx::R { ip: 0x40_0100, sp: a + size - k, fp }, stack: Some((a, Own::Pool(0))) }]);
+    c.th = Some(vec![Thread { id: 1, ctx: rctx3(0x40_0100, a + size - k, fp), stack: Some((a, Own::Pool(0))) }]);
     c
 }
 
 /// the former oracle-only `index stackmem` grid, now modelled: thread 1 owns region A and its own
 /// context points into A; the exception context (readable unless `esp` is none) has sp = esp; one
 /// return address into the module is planted in A or B at word `slot`
-fn stackmem_case(cpu: u16, esp: Option<u64>, in_a: bool, slot: u64) -> Case {
+fn stackmem_case(cpu: u16, esp: Option<u64>, in_a: bool, slot: u64, be: bool) -> Case {
     let w: u64 = if cpu == 0 { 4 } else { 8 };
     let (a, b, size, ra) = (0x10000u64, 0x20000u64, 0x200u64, 0x40_0310u64);
     let mut c = empty_case(LINUX, cpu);
+    c.be = be;
     c.mo.push(Mod { base: 0x40_0000, size: 0x1000, name: Name::ascii("mod") });
-    let plant = |on: bool| if on { vec![(slot * w, word(ra, w))] } else { vec![] };
+    let plant = |on: bool| if on { vec![(slot * w, word(ra, w, be))] } else { vec![] };
     c.rg.push(Region { base: a, size, patches: plant(in_a) });
     c.rg.push(Region { base: b, size, patches: plant(!in_a) });
     c.ml = vec![MlSection::L(vec![LItem::Pool(0), LItem::Pool(1)])];
-    c.th = Some(vec![Thread { id: 1, ctx: Ctx::R { ip: 0x40_0100, sp: a + 0x10, fp: 0 }, stack: Some((a, Own::Pool(0))) }]);
+    c.th = Some(vec![Thread { id: 1, ctx: rctx3(0x40_0100, a + 0x10, 0), stack: Some((a, Own::Pool(0))) }]);
     let mut e = exc0(11, 1);
     e.np = 0;
     e.ctx = match esp {
-        Some(sp) => Ctx::R { ip: 0x40_0200, sp, fp: 0 },
+        Some(sp) => rctx3(0x40_0200, sp, 0),
         None => Ctx::U(0),
     };
     c.ex = ExcSpec::Some(e);
     c
+}
+
+/// the `win:` field of a `chain` case
+fn parse_win_field(s: &str) -> Option<Vec<(String, Vec<WinRec>)>> {
+    let body = s.strip_prefix("win:")?;
+    if body == "-" {
+        return Some(vec![]);
+    }
+    let mut out = vec![];
+    for m in body.split(',') {
+        let (name, recs) = m.split_once(':')?;
+        out.push((name.to_string(), recs.split(';').filter(|x| !x.is_empty()).map(WinRec::parse).collect::<Option<Vec<_>>>()?));
+    }
+    Some(out)
+}
+
+/// A case of engine `walk` or `chain` (one context, one stack, modules, symbol records) as a WHOLE
+/// DUMP: the context becomes a thread's (all its registers), the stack a pool region the thread's
+/// stack descriptor cites, the modules the module list, the symbol records what the supplier has.
+/// `variant` adds a second thread with the same context and stack, an exception stream naming
+/// thread 1 (context = the thread's), a memory list. `be`: the dump is big-endian — the stack words
+/// (laid out by the other engine's generator as little-endian words) are stored byte-swapped.
+fn from_walk(wc: &walk::Case, wins: Vec<(String, Vec<WinRec>)>, be: bool, variant: u64) -> Option<Case> {
+    let arch = wc.arch.as_str();
+    let cpu: u16 = match arch {
+        "x86" => 0,
+        "amd64" => 9,
+        "arm" => 5,
+        "arm64" => 12,
+        "arm64old" => 0x8003,
+        "mips32" => 1,
+        _ => return None, // a MIPS64 context is a flag of the context record, not a CPU of the dump
+    };
+    let os = match wc.os.as_str() {
+        "windows" => WIN,
+        "macos" => MAC,
+        "ios" => 0x8102,
+        "android" => 0x8203,
+        _ => LINUX,
+    };
+    if wc.valid.is_some() || !wc.symraw.is_empty() {
+        return None;
+    }
+    let (base, bytes) = wc.stack.as_ref()?;
+    if bytes.is_empty() || bytes.len() > 6000 {
+        return None;
+    }
+    let lim = if ctx32(cpu) { 0xffff_ffffu64 } else { u64::MAX };
+    let (mut ip, mut sp, mut fp) = (0u64, 0u64, 0u64);
+    let mut rest: Vec<(String, u64)> = vec![];
+    for (n, v) in &wc.regs {
+        let n = walk::canon(arch, n);
+        if *v > lim {
+            return None;
+        }
+        if n == walk::ip_name(arch) {
+            ip = *v;
+        } else if n == walk::sp_name(arch) {
+            sp = *v;
+        } else if n == walk::fp_name(arch) {
+            fp = *v;
+        } else if let Some(e) = rest.iter_mut().find(|(m, _)| m == n) {
+            e.1 = *v;
+        } else {
+            rest.push((n.to_string(), *v));
+        }
+    }
+    let mut c = empty_case(os, cpu);
+    c.be = be;
+    let w = walk::ptr_of(arch) as usize;
+    let mut stored = bytes.clone();
+    if be {
+        for ch in stored.chunks_mut(w) {
+            ch.reverse();
+        }
+    }
+    c.rg.push(Region { base: *base, size: stored.len() as u64, patches: vec![(0, stored)] });
+    let ctx = Ctx::R { ip, sp, fp, rest };
+    let mut th = vec![Thread { id: 1, ctx: ctx.clone(), stack: Some((*base, Own::Pool(0))) }];
+    if variant & 1 != 0 {
+        // a second (non-requesting) thread: it too must be walked with the supplier's symbols
+        th.push(Thread { id: 2, ctx: ctx.clone(), stack: Some((*base, Own::Pool(0))) });
+    }
+    if variant & 2 != 0 {
+        let mut e = exc0(11, 1);
+        e.tid = 1;
+        e.ctx = if variant & 4 != 0 { Ctx::U(0) } else { ctx.clone() };
+        c.ex = ExcSpec::Some(e);
+    }
+    if variant & 8 != 0 {
+        c.ml = vec![MlSection::L(vec![LItem::Pool(0)])];
+    }
+    c.th = Some(th);
+    for (b, z, n) in &wc.mods {
+        if !name_ok(n) {
+            return None;
+        }
+        c.mo.push(Mod { base: *b, size: *z, name: Name::ascii(n) });
+    }
+    for (n, recs) in &wc.syms {
+        if !name_ok(n) || c.sy.iter().any(|(x, _)| x == n) {
+            return None;
+        }
+        c.sy.push((n.clone(), recs.clone()));
+    }
+    for (n, recs) in wins {
+        if !name_ok(&n) || recs.is_empty() {
+            continue;
+        }
+        c.sw.push((n, recs));
+    }
+    Some(c)
+}
+
+/// whole-dump versions of sampled cases of the `chain` engine (frame-pointer / STACK CFI / scan /
+/// STACK WIN / mixed chains that satisfy the C04 preconditions) and of the `walk` engine (arbitrary
+/// contexts, stacks and CFI rules): every `step`-th case whose shape a dump can carry
+fn emit_converted(tier: Tier, rng: &mut Rng, emit: &mut dyn FnMut(String)) {
+    use crate::engines::chain::Chain;
+    let (chain_step, walk_step) = if tier == Tier::Quick { (5u64, 90u64) } else { (1, 12) };
+    let mut lines: Vec<(String, usize)> = vec![];
+    {
+        let mut k = 0u64;
+        let mut sub = Rng::new(rng.next());
+        Chain.generate(Tier::Quick, &mut sub, &mut |l: String| {
+            k += 1;
+            if k % chain_step == 0 {
+                let n_extra = if l.split(' ').filter(|s| !s.is_empty()).nth(3).is_some_and(|t| t.starts_with("win:")) { 3 } else { 2 };
+                lines.push((l, n_extra));
+            }
+        });
+        let mut k = 0u64;
+        let mut sub = Rng::new(rng.next());
+        walk::Walk.generate(Tier::Quick, &mut sub, &mut |l: String| {
+            k += 1;
+            if k % walk_step == 0 && !l.contains(" symraw:") && !l.ends_with(" be:1") {
+                lines.push((l, 0));
+            }
+        });
+    }
+    let mut dumped: Vec<String> = vec![];
+    for (i, (l, n_extra)) in lines.iter().enumerate() {
+        let Some(wc) = walk::Case::parse(l, *n_extra) else { continue };
+        let wins = if *n_extra == 3 { parse_win_field(&wc.extra[2]).unwrap_or_default() } else { vec![] };
+        let be = i % 3 == 2;
+        let variant = rng.below(16);
+        if let Some(c) = from_walk(&wc, wins, be, variant) {
+            emit(c.line());
+            dumped.push(c.line());
+        }
+    }
+    // INDEX_DUMP=<file>: also write the converted cases there (debugging, corpus building)
+    if let Ok(path) = std::env::var("INDEX_DUMP") {
+        let _ = std::fs::write(path, dumped.join("\n"));
+    }
 }
 
 impl Engine for Index {
@@ -2873,9 +3249,34 @@ impl Engine for Index {
             for ver in 1..=5u8 {
                 for st in [None, Some(vec![("Pid".to_string(), "77".to_string())])] {
                     let mut c = minimal(LINUX, 9, exc0(11, 1));
-                    c.mi = MiscSpec::Some { flags, pid: 4242, ctime: 1_600_000_000, ver };
+                    c.mi = MiscSpec::Some { flags, pid: 4242, ctime: 1_600_000_000, ver, soi: None };
                     c.st = st;
                     emit(c.line());
+                }
+            }
+        }
+        // --- the misc-info stream's own `size_of_info` field disagrees with the stream length: the
+        //     field is untrusted and not consulted (the stream length selects the revision), so process
+        //     id and create time are still those of the stream, with no fallback to the Linux status
+        for ver in 1..=5u8 {
+            let len = match ver {
+                1 => md::MINIDUMP_MISC_INFO::size_with(&scroll::LE),
+                2 => md::MINIDUMP_MISC_INFO_2::size_with(&scroll::LE),
+                3 => md::MINIDUMP_MISC_INFO_3::size_with(&scroll::LE),
+                4 => md::MINIDUMP_MISC_INFO_4::size_with(&scroll::LE),
+                _ => md::MINIDUMP_MISC_INFO_5::size_with(&scroll::LE),
+            } as u32;
+            for soi in [0u32, 8, 23, 24, len - 1, len + 1, 0xffff_ffff] {
+                for flags in [3u32, 1, 2] {
+                    for st in [None, Some(vec![("Pid".to_string(), "77".to_string())])] {
+                        for be in [false, true] {
+                            let mut c = minimal(LINUX, 9, exc0(11, 1));
+                            c.mi = MiscSpec::Some { flags, pid: 4242, ctime: 1_600_000_000, ver, soi: Some(soi) };
+                            c.st = st.clone();
+                            c.be = be;
+                            emit(c.line());
+                        }
+                    }
                 }
             }
         }
@@ -2884,7 +3285,10 @@ impl Engine for Index {
             for esp in [None, Some(65568u64), Some(131072), Some(131104), Some(131576), Some(196608), Some(66040), Some(66041), Some(131577), Some(131583), Some(131584)] {
                 for in_a in [true, false] {
                     for slot in [4u64, 8, 40, 62, 63] {
-                        emit(stackmem_case(cpu, esp, in_a, slot).line());
+                        emit(stackmem_case(cpu, esp, in_a, slot, false).line());
+                        if slot == 8 || slot == 63 {
+                            emit(stackmem_case(cpu, esp, in_a, slot, true).line());
+                        }
                     }
                 }
             }
@@ -2893,10 +3297,13 @@ impl Engine for Index {
             for k in 0..=9u64 {
                 for with_list in [false, true] {
                     for fp_kind in 0..3u8 {
-                        emit(tail_case(cpu, k, with_list, fp_kind).line());
+                        emit(tail_case(cpu, k, with_list, fp_kind, false).line());
+                        if k % 3 == 1 {
+                            emit(tail_case(cpu, k, with_list, fp_kind, true).line());
+                        }
                         if cpu == 5 {
                             // ARM frame pointers are followed on iOS only: the same case on Linux scans
-                            let mut c = tail_case(cpu, k, with_list, fp_kind);
+                            let mut c = tail_case(cpu, k, with_list, fp_kind, false);
                             c.os = LINUX;
                             emit(c.line());
                         }
@@ -2924,6 +3331,8 @@ impl Engine for Index {
             let cpu = [9u16, 0, 12, 9, 0, 12, 5, 1, 0x8003, 10, 3, 0x8001, 0x8002, 9, 12, 0][i % 16];
             emit(gen_stacks(rng, cpu, i % 3 != 0).line());
         }
+        // --- symbol files and full contexts: cases of the `chain` and `walk` engines as whole dumps
+        emit_converted(tier, rng, emit);
         // --- random
         let n = if tier == Tier::Quick { 30000 } else { 100000 };
         for i in 0..n {
@@ -2958,6 +3367,12 @@ impl Engine for Index {
         tags.push(format!("cpu:{:?}", Cpu::from_processor_architecture(c.cpu)).split('(').next().unwrap().to_string());
         tags.push(format!("exc:{}", match &c.ex { ExcSpec::None => "none", ExcSpec::Short => "short", ExcSpec::Some(_) => "some" }));
         tags.push(format!("endian:{}", if c.be { "big" } else { "little" }));
+        if !c.sy.is_empty() {
+            tags.push("symbols:records".into());
+        }
+        if !c.sw.is_empty() {
+            tags.push("symbols:stack-win".into());
+        }
         for m in &c.ml {
             tags.push(format!("memory:{}", match m { MlSection::L(_) => "list", MlSection::Q(_) => "list64", MlSection::X => "broken-list64" }));
         }
@@ -2975,6 +3390,17 @@ impl Engine for Index {
                 }
                 for f in t.frames.iter().skip(1) {
                     tags.push(format!("trust:{}", f.trust.as_str()));
+                    if c.be {
+                        tags.push(format!("big-endian-walk:{}", f.trust.as_str()));
+                    }
+                    if let minidump::MinidumpContextValidity::Some(set) = &f.context.valid {
+                        if set.len() > 3 {
+                            tags.push("caller-with-forwarded-registers".into());
+                        }
+                    }
+                }
+                if t.frames.iter().any(|f| f.function_name.is_some()) {
+                    tags.push("frame-with-function".into());
                 }
                 if t.frames.iter().any(|f| !f.unloaded_modules.is_empty()) {
                     tags.push("frame-in-unloaded".into());
@@ -3040,10 +3466,17 @@ impl Engine for Index {
                         c.th.as_mut().unwrap()[i].stack = None;
                         cands.push(c);
                     }
-                    if let Ctx::R { ip, sp, fp } = th[i].ctx {
-                        if fp != 0 {
+                    if let Ctx::R { ip, sp, fp, rest } = &th[i].ctx {
+                        if *fp != 0 {
                             let mut c = cur.clone();
-                            c.th.as_mut().unwrap()[i].ctx = Ctx::R { ip, sp, fp: 0 };
+                            c.th.as_mut().unwrap()[i].ctx = Ctx::R { ip: *ip, sp: *sp, fp: 0, rest: rest.clone() };
+                            cands.push(c);
+                        }
+                        for j in 0..rest.len() {
+                            let mut r2 = rest.clone();
+                            r2.remove(j);
+                            let mut c = cur.clone();
+                            c.th.as_mut().unwrap()[i].ctx = Ctx::R { ip: *ip, sp: *sp, fp: *fp, rest: r2 };
                             cands.push(c);
                         }
                     }
@@ -3127,6 +3560,35 @@ impl Engine for Index {
             drop_field!(hd, None);
             drop_field!(ps, 0);
             drop_field!(be, false);
+            for i in 0..cur.sy.len() {
+                let mut c = cur.clone();
+                c.sy.remove(i);
+                cands.push(c);
+                for j in 0..cur.sy[i].1.len() {
+                    // an `A` record belongs to the `C` before it: dropping a `C` drops its `A`s
+                    let mut recs = cur.sy[i].1.clone();
+                    recs.remove(j);
+                    while j < recs.len() && matches!(recs[j], walk::Rec::A { .. }) && (j == 0 || !matches!(recs[j - 1], walk::Rec::C { .. } | walk::Rec::A { .. })) {
+                        recs.remove(j);
+                    }
+                    let mut c = cur.clone();
+                    c.sy[i].1 = recs;
+                    cands.push(c);
+                }
+            }
+            for i in 0..cur.sw.len() {
+                let mut c = cur.clone();
+                c.sw.remove(i);
+                cands.push(c);
+                for j in 0..cur.sw[i].1.len() {
+                    let mut c = cur.clone();
+                    c.sw[i].1.remove(j);
+                    if c.sw[i].1.is_empty() {
+                        c.sw.remove(i);
+                    }
+                    cands.push(c);
+                }
+            }
             // memory lists: drop a section, an item
             for i in 0..cur.ml.len() {
                 let mut c = cur.clone();
